@@ -7,7 +7,8 @@ fn main() {
         let v = Decimal::new(*k, 3);
         years.push(TaxYearSummary { period: TaxPeriod::new(2000 + i as u16).unwrap(), disposals: vec![Disposal { date: chrono::NaiveDate::from_ymd_opt(2000 + i as i32, 6, 1).unwrap(), ticker: "AAA".into(), quantity: Decimal::from(4), gross_proceeds: Decimal::from(50000) + v, proceeds: Decimal::from(50000) + v, matches: vec![Match { rule: MatchRule::Section104, quantity: Decimal::from(4), allowable_cost: Decimal::from(50000), gain_or_loss: v, acquisition_date: None }] }], total_gain: v, total_loss: Decimal::ZERO, net_gain: v, exempt_amount: Decimal::from(3000), dividend_income: Decimal::ZERO, dividend_tax_paid: Decimal::ZERO });
     }
-    let r = TaxReport { tax_years: years, holdings: vec![], transactions: vec![] };
+    let r = TaxReport { tax_years: years, holdings: vec![Section104Holding { ticker: "AAA".into(), quantity: Decimal::new(8125, 3), total_cost: Decimal::new(1234565, 3) }], transactions: vec![] };
+    println!("{}", cgt_formatter_plain::format(&r));
     let runs = cgt_formatter_pdf::verif_text_runs(&r).unwrap();
     println!("{}", runs.join(" | "));
 }
